@@ -2677,3 +2677,103 @@ package go_clipper2
 //@   props C13
 //@   budget 3
 //@   requires dom(prevPt, 61) && dom(currPt, 61) && dom(rectMidPoint, 61) && validLoc(prev) && validLoc(curr)
+
+// ---------------------------------------------------------------------------------
+// Remaining small functions of the sweep (C01, C02, C17)
+// ---------------------------------------------------------------------------------
+
+// segsIntersect (exclusive form): true exactly for a proper crossing - the end points of each segment lie strictly
+// on opposite sides of the other segment's line (exact integer cross products)
+//@ func segsIntersect
+//@   props C01 C02 C14 C03
+//@   requires dom(seg1a, 29) && dom(seg1b, 29) && dom(seg2a, 29) && dom(seg2b, 29)
+//@   ensures [proper-crossing] !inclusive ==> result == (((cross(seg1a, seg2a, seg2b) > 0 && cross(seg1b, seg2a, seg2b) < 0) || (cross(seg1a, seg2a, seg2b) < 0 && cross(seg1b, seg2a, seg2b) > 0)) && ((cross(seg2a, seg1a, seg1b) > 0 && cross(seg2b, seg1a, seg1b) < 0) || (cross(seg2a, seg1a, seg1b) < 0 && cross(seg2b, seg1a, seg1b) > 0)))
+//@   ensures [inclusive-same-side-is-no-crossing] (inclusive && ((cross(seg1a, seg2a, seg2b) > 0 && cross(seg1b, seg2a, seg2b) > 0) || (cross(seg1a, seg2a, seg2b) < 0 && cross(seg1b, seg2a, seg2b) < 0))) ==> !result
+//@   ensures [inclusive-collinear-segments-are-no-crossing] (inclusive && cross(seg1a, seg2a, seg2b) == 0 && cross(seg1b, seg2a, seg2b) == 0 && cross(seg2a, seg1a, seg1b) == 0 && cross(seg2b, seg1a, seg1b) == 0) ==> !result
+
+//@ func setHorzSegHeadingForward
+//@   props C02 C17 C03
+//@   requires hs != nil && opP != nil && opN != nil
+//@   ensures [a-segment-of-zero-width-has-no-heading] opP.pt.X == opN.pt.X ==> (!result && hs.leftOp == old(hs.leftOp) && hs.rightOp == old(hs.rightOp))
+//@   ensures [left-end-is-the-end-with-the-smaller-x] opP.pt.X != opN.pt.X ==> (result && hs.leftOp.pt.X < hs.rightOp.pt.X && hs.leftToRight == (opP.pt.X < opN.pt.X) && ((hs.leftOp == opP && hs.rightOp == opN) || (hs.leftOp == opN && hs.rightOp == opP)))
+
+// horzSegSort: usable (right end set) segments sort before unusable ones, and a segment equals itself
+//@ func horzSegSort
+//@   props C17 C02 C03
+//@   nosafety
+//@   assumes (hs1 != nil && hs1.rightOp != nil ==> hs1.leftOp != nil) && (hs2 != nil && hs2.rightOp != nil ==> hs2.leftOp != nil)
+//@   ensures [usable-segments-come-first] (hs1 != nil && hs2 != nil && hs1.rightOp != nil && hs2.rightOp == nil) ==> result < 0
+//@   ensures [unusable-segments-come-last] (hs1 != nil && hs2 != nil && hs1.rightOp == nil && hs2.rightOp != nil) ==> result > 0
+//@   ensures [equal-keys-compare-equal] (hs1 != nil && hs2 != nil && ((hs1.rightOp == nil && hs2.rightOp == nil) || (hs1.rightOp != nil && hs2.rightOp != nil && hs1.leftOp.pt.X == hs2.leftOp.pt.X))) ==> result == 0
+
+// split: a joined pair is separated - both edges lose their join mark - and starts a new output ring at the point
+//@ func clipperBase.split
+//@   props C02 C03
+//@   nosafety
+//@   assumes e != nil && e.joinWith != JoinNone && e.localMin != nil && (e.joinWith == JoinRight ==> (e.nextInAEL != nil && e.nextInAEL != e)) && (e.joinWith != JoinRight ==> (e.prevInAEL != nil && e.prevInAEL != e && e.prevInAEL.localMin != nil))
+//@   ensures [both-partners-lose-the-join-mark] e.joinWith == JoinNone && (old(e.joinWith) == JoinRight ==> e.nextInAEL.joinWith == JoinNone) && (old(e.joinWith) != JoinRight ==> e.prevInAEL.joinWith == JoinNone)
+//@   ensures [the-pair-starts-one-new-ring-at-the-point] len(c.outrecList) == old(len(c.outrecList)) + 1 && e.outrec != nil && e.outrec == c.outrecList[len(c.outrecList)-1] && e.outrec.pts != nil && e.outrec.pts.pt == currPt && (old(e.joinWith) == JoinRight ==> e.nextInAEL.outrec == e.outrec) && (old(e.joinWith) != JoinRight ==> e.prevInAEL.outrec == e.outrec)
+
+// trimHorz: a horizontal edge only ever absorbs following vertices on its own level; its bottom never moves
+//@ func trimHorz
+//@   props C01 C02 C03
+//@   nosafety
+//@   opaque setDx
+//@   assumes horzEdge != nil && horzEdge.vertexTop != nil && horzEdge.top == horzEdge.vertexTop.pt && forallp(v, Vertex, v.next != nil && v.prev != nil)
+//@   loop 0 invariant [stays-on-its-level] horzEdge.top.Y == old(horzEdge.top.Y) && horzEdge.bot == old(horzEdge.bot) && horzEdge.top == horzEdge.vertexTop.pt && pt == ite(horzEdge.windDx > 0, horzEdge.vertexTop.next.pt, horzEdge.vertexTop.prev.pt)
+//@   loop 0 step [absorbs-the-next-vertex-along-the-winding-direction] horzEdge.vertexTop == ite(horzEdge.windDx > 0, old(horzEdge.vertexTop).next, old(horzEdge.vertexTop).prev)
+//@   ensures [stays-on-its-level] horzEdge.top.Y == old(horzEdge.top.Y) && horzEdge.bot == old(horzEdge.bot)
+
+// addToHorzSegList: only points of closed output rings are recorded as horizontal segment ends
+//@ func clipperBase.addToHorzSegList
+//@   props C02 C09 C03
+//@   nosafety
+//@   assumes op != nil && op.outrec != nil
+//@   ensures [open-rings-have-no-horizontal-joins] op.outrec.isOpen ==> len(c.horzSegList) == old(len(c.horzSegList))
+//@   ensures [a-point-of-a-closed-ring-is-recorded-once] !op.outrec.isOpen ==> (len(c.horzSegList) == old(len(c.horzSegList)) + 1 && c.horzSegList[len(c.horzSegList)-1] != nil && c.horzSegList[len(c.horzSegList)-1].leftOp == op)
+
+// updateHorzSegment: a segment is usable only if its ends differ in X and its left end is not already the left end
+// of another segment; an unusable segment has no right end
+//@ func clipperBase.updateHorzSegment
+//@   props C02 C17 C03
+//@   nosafety
+//@   assumes hs != nil && forallp(q, OutPt, q.next != nil && q.prev != nil)
+//@   loop 0 invariant [on-the-level] opP != nil && opP.pt.Y == currY && opN != nil && opN.pt.Y == currY
+//@   loop 1 invariant [on-the-level] opP != nil && opP.pt.Y == currY && opN != nil && opN.pt.Y == currY
+//@   loop 2 invariant [on-the-level] opP != nil && opP.pt.Y == currY && opN != nil && opN.pt.Y == currY
+//@   loop 3 invariant [on-the-level] opP != nil && opP.pt.Y == currY && opN != nil && opN.pt.Y == currY
+//@   ensures [usable-means-a-proper-span-that-owns-its-left-end] result ==> (hs.leftOp != nil && hs.rightOp != nil && hs.leftOp.pt.X < hs.rightOp.pt.X && hs.leftOp.horz == hs && hs.leftOp.pt.Y == hs.rightOp.pt.Y)
+//@   ensures [unusable-has-no-right-end] !result ==> hs.rightOp == nil
+
+// path extraction of the rectangle clipper (C06, C11): every node of the ring is emitted once, in ring order; the
+// polygon variant removes only vertices that are collinear with their neighbours; degenerate rings give no path
+//@ func getPathRectClipLine
+//@   props C11 C03
+//@   nosafety
+//@   assumes forallp(q, OutPt2, q.next != nil && q.prev != nil)
+//@   loop 0 step [each-node-is-emitted-once-in-ring-order] len(result) == old(len(result)) + 1 && result[len(result)-1] == old(op2).pt && op2 == old(op2).next && forall(k, 0, old(len(result)), result[k] == old(result)[k])
+//@   loop 0 invariant [starts-after-the-entry-node] len(result) >= 1 && result[0] == op.pt && op == old(op).next
+//@   ensures [a-ring-of-one-node-is-no-line] (old(op) == nil || old(op.next) == old(op)) ==> len(result) == 0
+//@   ensures [starts-at-the-node-after-the-entry-node] !(old(op) == nil || old(op.next) == old(op)) ==> (len(result) >= 1 && result[0] == old(op.next.pt))
+
+//@ func getPathRectClip
+//@   props C06 C03
+//@   nosafety
+//@   assumes forallp(q, OutPt2, q.next != nil && q.prev != nil && dom(q.pt, 29))
+//@   loop 0 invariant [ring] forallp(q, OutPt2, q.next != nil && q.prev != nil && dom(q.pt, 29)) && op != nil
+//@   loop 0 step [only-vertices-collinear-with-their-neighbours-are-removed] (old(op2.prev.next) == old(op2) && old(op2.prev).next != old(op2)) ==> isCollinear(old(op2.prev.pt), old(op2.pt), old(op2.next.pt))
+//@   loop 0 step [points-are-never-moved] forallp(q, OutPt2, q.pt == old(q.pt))
+//@   loop 1 step [each-node-is-emitted-once-in-ring-order] len(result) == old(len(result)) + 1 && result[len(result)-1] == old(op2).pt && op2 == old(op2).next
+//@   ensures [fewer-than-three-nodes-is-no-polygon] (old(op) == nil || old(op.prev) == old(op.next)) ==> len(result) == 0
+
+// buildTree (C09, C04): an open output record contributes to the open solution only and never becomes a node of
+// the tree; a closed record never contributes to the open solution
+//@ func clipperBase.buildTree
+//@   props C09 C04 C12 C03
+//@   nosafety
+//@   opaque clipperBase.recursiveCheckOwners clipperBase.checkBounds clipperBase.buildPath
+//@   assumes polytree != nil && forall(k, 0, len(c.outrecList), c.outrecList[k] != nil)
+//@   loop 0 invariant [index] 0 <= i
+//@   loop 0 step [open-records-never-enter-the-tree] (old(i) < len(c.outrecList) && old(c.outrecList[i].isOpen) && old(len(c.outrecList)) == len(c.outrecList)) ==> c.outrecList[old(i)].polypath == old(c.outrecList[i].polypath)
+//@   loop 0 step [closed-records-never-enter-the-open-solution] (old(i) < len(c.outrecList) && !old(c.outrecList[i].isOpen)) ==> len(*solutionOpen) == old(len(*solutionOpen))
+//@   loop 0 step [records-are-visited-in-list-order] i == old(i) + 1
